@@ -76,6 +76,19 @@ impl Angle {
     }
 }
 
+#[cfg(embedded_graphics_verif)]
+impl Angle {
+    /// Raw representation of the angle (verification hook).
+    pub fn verif_raw(self) -> i32 {
+        self.0.verif_raw()
+    }
+
+    /// Creates an angle from its raw representation (verification hook).
+    pub fn verif_from_raw(raw: i32) -> Self {
+        Angle(Real::verif_from_raw(raw))
+    }
+}
+
 /// AngleUnit trait.
 ///
 /// `AngleUnit` is a trait to convert numbers into angle by appending .deg() or .rad()
